@@ -408,19 +408,39 @@ pub fn ntru_gen(
     loop {
         let f = gen_poly(n, rng);
         let g = gen_poly(n, rng);
+        #[cfg(feature = "verif-hooks")]
+        crate::verif_hooks::trace_i16s("keygen.candidate", &f.coefficients, &g.coefficients);
 
         let f_ntt = f.map(|&i| Felt::new(i)).fft();
         if f_ntt.coefficients.iter().any(|e| e.is_zero()) {
+            #[cfg(feature = "verif-hooks")]
+            crate::verif_hooks::trace_tag("keygen.reject.not_invertible");
             continue;
         }
         let gamma = gram_schmidt_norm_squared(&f, &g);
+        #[cfg(feature = "verif-hooks")]
+        crate::verif_hooks::trace_f64("keygen.gamma", gamma);
         if gamma > 1.3689f64 * (Q as f64) {
+            #[cfg(feature = "verif-hooks")]
+            crate::verif_hooks::trace_tag("keygen.reject.gamma");
             continue;
         }
 
         if let Some((capital_f, capital_g)) =
             ntru_solve_entrypoint(f.map(|&i| i as i32), g.map(|&i| i as i32))
         {
+            #[cfg(feature = "verif-hooks")]
+            crate::verif_hooks::emit(
+                "keygen.solved",
+                capital_f
+                    .coefficients
+                    .iter()
+                    .chain(capital_g.coefficients.iter())
+                    .map(|&i| i as i64)
+                    .collect(),
+                vec![],
+                vec![],
+            );
             return (
                 f,
                 g,
@@ -428,6 +448,8 @@ pub fn ntru_gen(
                 capital_g.map(|&i| i as i16),
             );
         }
+        #[cfg(feature = "verif-hooks")]
+        crate::verif_hooks::trace_tag("keygen.reject.unsolvable");
     }
 }
 
@@ -705,5 +727,28 @@ mod test {
         let g_times_capital_f = (g * capital_f).reduce_by_cyclotomic(n);
         let difference = f_times_capital_g - g_times_capital_f;
         assert_eq!(Polynomial::constant(12289), difference);
+    }
+}
+
+#[cfg(feature = "verif-hooks")]
+pub(crate) mod verif {
+    use super::*;
+    pub(crate) fn gen_poly(n: usize, rng: &mut dyn RngCore) -> Polynomial<i16> {
+        super::gen_poly(n, rng)
+    }
+    pub(crate) fn gram_schmidt_norm_squared(f: &Polynomial<i16>, g: &Polynomial<i16>) -> f64 {
+        super::gram_schmidt_norm_squared(f, g)
+    }
+    pub(crate) fn ntru_solve(
+        f: &Polynomial<BigInt>,
+        g: &Polynomial<BigInt>,
+    ) -> Option<(Polynomial<BigInt>, Polynomial<BigInt>)> {
+        super::ntru_solve(f, g)
+    }
+    pub(crate) fn ntru_solve_entrypoint(
+        f: Polynomial<i32>,
+        g: Polynomial<i32>,
+    ) -> Option<(Polynomial<i32>, Polynomial<i32>)> {
+        super::ntru_solve_entrypoint(f, g)
     }
 }
